@@ -22,14 +22,17 @@ RULE = (
     "thorough adds every pair of successive crashes (second crash at every commit of the resumed run, recovery sweep "
     "included) on the small workflows and a real os._exit(137) cross-check. Non-trivial = crash point inside a handler "
     "(between the poll commit and the ack commit of a message); distinct = (spec, handler type in flight, ordinal of "
-    "the commit within that handler)."
+    "the commit within that handler). Plus crashes of a process running SEVERAL worker threads: the uninterrupted run "
+    "is executed by 2-3 threads interleaved at SQL-statement granularity, every commit yields a snapshot with several "
+    "handlers in flight, sampled snapshots are resumed and compared with the sequential reference (surplus executions <= "
+    "number of threads)."
 )
 ASSUMPTIONS = [
     "SQLite backend, store+queue in one file; process-kill crash model (SQLite atomic commit trusted, no torn pages)",
     "crash points start after the submitting client's StartWorkflow push is durable (the property is about a running workflow)",
     "in-process fresh-worker emulation, cross-checked against real os._exit kills",
 ]
-MIN_OBS = {"crash_points_resumed": {"quick": 1500, "thorough": 20000}, "in_handler_crash_points": {"quick": 800, "thorough": 10000}}
+MIN_OBS = {"crash_points_resumed": {"quick": 1500, "thorough": 20000}, "in_handler_crash_points": {"quick": 800, "thorough": 10000}, "multi_worker_crash_points": {"quick": 150, "thorough": 3000}}
 TIMEOUT = {"quick": 800, "thorough": 3400}
 
 
@@ -54,6 +57,8 @@ def gen_cases(tier: str, seed: int) -> list[dict]:
             cases.append({"spec_i": i, "order": "fifo", "seed": seed, "mode": "single"})
         for i in range(0, n, 3):
             cases.append({"spec_i": i, "order": "random", "seed": seed, "mode": "single"})
+        for i in range(0, n, 2):
+            cases.append({"spec_i": i, "order": "mw", "seed": seed, "mode": "mw", "sample": 30})
     else:
         n = 60
         for i in range(n):
@@ -63,6 +68,9 @@ def gen_cases(tier: str, seed: int) -> list[dict]:
             cases.append({"spec_i": i, "order": "fifo", "seed": seed, "mode": "pairs"})
         for i in range(0, 18):
             cases.append({"spec_i": i, "order": "fifo", "seed": seed, "mode": "realkill"})
+        for i in range(n):
+            for rep_ in range(2):
+                cases.append({"spec_i": i, "order": "mw", "seed": seed * 2 + rep_, "mode": "mw", "sample": 60})
     return cases
 
 
@@ -166,7 +174,117 @@ def classify(violations: list[dict], ref, snaps, k: int, spec: dict, run, prop: 
     return oracles.attribute(violations, run, prop)
 
 
+class _Snaps:
+    tags: list = []
+
+
+def _mw(case: dict) -> dict:
+    """Crash of a process that runs SEVERAL worker threads: the uninterrupted run is executed by 2-3
+    threads interleaved at SQL-statement granularity, a database snapshot is taken at every commit (several
+    handlers are in flight at that moment), sampled snapshots are resumed as a fresh single worker and
+    compared with the sequential exactly-once reference (surplus executions <= number of worker threads)."""
+    import os
+    import shutil
+
+    from .. import env
+    from .. import interleave as il
+    from ..runs import delivery_run
+
+    spec = _spec_for(case["spec_i"], case["seed"])
+    rng = random.Random(case["seed"] * 8191 + case["spec_i"])
+    ref = delivery_run(spec)
+    obs: Counter = Counter()
+    keys: set = set()
+    violations: list[dict] = []
+    if not ref.quiescent:
+        return {"violations": [], "obs": {"reference_not_quiescent": 1}, "keys": []}
+    nworkers = rng.choice([2, 3])
+    d = os.path.join(env.scratch_dir(), f"mwsnap-{os.getpid()}-{rng.randrange(1 << 30)}")
+    os.makedirs(d, exist_ok=True)
+    meta: list[dict] = []
+
+    def with_sched(sched, w):
+        def listener(world, idx, conn):
+            path = os.path.join(d, f"{len(meta)}.db")
+            shutil.copyfile(world.path, path)
+            meta.append({"path": path, "max_seq": world.commits[idx][2], "ledger_len": len(world.ledger), "tag": world.commits[idx][3], "thread": world.commits[idx][1]})
+
+        w.commit_listeners.append(listener)
+        return None
+
+    pol = il.RandomPolicy(rng.randrange(1 << 30), switch_p=rng.choice([0.2, 0.4])) if case["spec_i"] % 2 else il.PCT(rng.randrange(1 << 30), d=3, horizon=600)
+    try:
+        run0, info = il.run_workers(spec, nworkers, pol, with_sched=with_sched, watchdog=120.0)
+        if run0 is None:
+            return {"violations": [], "obs": {"scheduler_failed": 1}, "keys": [], "inconclusive": info.get("failed")}
+        a0, b0 = summarize(ref), summarize(run0)
+        if a0["wf"] != b0["wf"] or a0["stages"] != b0["stages"]:
+            obs["uninterrupted_interleaved_run_differs_from_reference"] += 1  # judged by C02 / C04, not here
+            return {"violations": [], "obs": dict(obs), "keys": []}
+        groups = oracles.Groups(run0.commits)
+        id2ref = {v["id"]: k for k, v in run0.state.get("stages", {}).items()}
+        mark_seq = {str(a["a"]): a["seq"] for a in run0.audit if a["kind"] == "mark" and a["op"] == "ins"}
+        claims = []
+        for a in run0.audit:
+            tag = groups.tag(groups.of(a["seq"]))
+            if a["kind"] == "status" and a["op"] == "stage" and a["c"] == "NOT_STARTED" and a["d"] == "RUNNING" and tag and tag[0] == "StartStage":
+                claims.append((a["seq"], mark_seq.get(str(tag[1]), 1 << 60), a["a"]))
+        ks = [k for k in range(len(meta) - 1) if meta[k]["thread"] != "MainThread"]
+        if len(ks) > case["sample"]:
+            ks = sorted(rng.sample(ks, case["sample"]))
+        budget = ref.steps * 4 + 80
+        for k in ks:
+            seq_k = meta[k]["max_seq"]
+            pre = [dict(r) for r in run0.ledger[: meta[k + 1]["ledger_len"]]]
+            run, _ = crash.resume(meta[k]["path"], pre, max_steps=budget)
+            obs["evaluations"] += 1
+            obs["crash_points_resumed"] += 1
+            obs["multi_worker_crash_points"] += 1
+            in_flight = {str(a["a"]) for a in run0.audit if a["kind"] == "queue" and a["op"] == "ins" and a["seq"] <= seq_k} - {str(a["a"]) for a in run0.audit if a["kind"] == "queue" and a["op"] == "del" and a["seq"] <= seq_k}
+            if meta[k]["tag"]:
+                obs["in_handler_crash_points"] += 1
+                keys.add(f"mw:{spec['name']}:{meta[k]['tag'][0]}:{nworkers}")
+            v = compare(spec, ref, _Snaps(), k, run, len(pre), allowance=nworkers)
+            if any("INCONCLUSIVE" in x["sig"] for x in v):
+                obs["budget_exhausted"] += 1
+                continue
+            if v:
+                open_claims = [sid for (cseq, mseq, sid) in claims if cseq <= seq_k < mseq]
+                sigs = " ".join(x["sig"] for x in v)
+                done = False
+                for sid in open_claims:
+                    sdef = next((s_ for s_ in spec["stages"] if s_["ref"] == id2ref.get(sid)), None)
+                    if sdef is None:
+                        continue
+                    detail = f"multi-worker crash after commit {k} (StartStage of {id2ref.get(sid)} between its claim and its plan commit); " + "; ".join(x["msg"] for x in v)[:400]
+                    if sdef.get("type", "v") == "v" and "upstream-data" in sigs:
+                        v = [viol("C01/crash-between-stage-claim-and-plan:predefined-tasks-run-without-ancestor-outputs", detail)]
+                        done = True
+                    elif sdef.get("type") == "vs" and "execution-missing" in sigs:
+                        v = [viol("C01/crash-between-stage-claim-and-plan:tasks-never-built-stage-completes-without-running-them", detail)]
+                        done = True
+                    if done:
+                        break
+                if not done:
+                    w_ = oracles.recovery_started_parent_before_children(run)
+                    v = [viol("C01/recovery-starts-parent-tasks-before-its-before-stages-finished", f"multi-worker crash after commit {k}: {w_}; symptoms {[x['sig'] for x in v][:5]}")] if w_ else oracles.attribute(v, run, "C01")
+            for x in v:
+                x.update(spec=spec["name"], k=k, workers=nworkers, in_flight_rows=len(in_flight))
+            violations += v
+    finally:
+        shutil.rmtree(d, ignore_errors=True)
+    seen = set()
+    uniq = []
+    for x in violations:
+        if x["sig"] not in seen:
+            seen.add(x["sig"])
+            uniq.append(x)
+    return {"violations": uniq, "obs": dict(obs), "keys": sorted(keys)}
+
+
 def run_case(case: dict) -> dict:
+    if case.get("mode") == "mw":
+        return _mw(case)
     spec = _spec_for(case["spec_i"], case["seed"])
     order = "fifo" if case["order"] == "fifo" else "random"
     seed = case["seed"] * 11 + (2 if case["order"] == "random2" else 1)
